@@ -34,7 +34,7 @@ def asan_runtime():
     return _ASAN_RT
 
 
-def _read_status(path, calls=None):
+def _read_status(path, calls=None, steps=None):
     begun, done, pid, loaded, quit_ = [], {}, None, None, False
     if not path.exists():
         return begun, done, pid, loaded, quit_
@@ -47,11 +47,20 @@ def _read_status(path, calls=None):
                 done[int(i)] = json.loads(js)
             except Exception:
                 pass
+        elif line.startswith("S "):
+            if steps is not None:
+                parts = line.split(" ", 2)
+                if len(parts) == 3:
+                    steps[int(parts[1])] = parts[2]
         elif line.startswith("C "):
             if calls is not None:
                 _, i, js = line.split(" ", 2)
                 try:
-                    calls.setdefault(int(i), []).append(json.loads(js))
+                    rec = json.loads(js)
+                    if "fn" in rec:
+                        calls.setdefault(int(i), []).append(rec)
+                    elif "ret" in rec and calls.get(int(i)):
+                        calls[int(i)][-1]["ret"] = rec["ret"]       # value returned by the call recorded just before
                 except Exception:
                     pass
         elif line.startswith("P "):
@@ -75,6 +84,7 @@ def run_probes(probes, native_dir, repo, workdir, per_probe_timeout=60.0, batch_
     pfile.write_text(json.dumps(probes))
     results = [None] * len(probes)
     allcalls = {}
+    laststep = {}       # probe -> label of the last history step that was started
     deaths = {}         # entry point -> number of workers it killed in this batch
     start, attempt = 0, 0
     t_batch = time.time()
@@ -127,8 +137,9 @@ def run_probes(probes, native_dir, repo, workdir, per_probe_timeout=60.0, batch_
                 break
         so.close()
         se.close()
-        calls = {}
-        begun, done, pid, loaded, quit_ = _read_status(status, calls)
+        calls, steps = {}, {}
+        begun, done, pid, loaded, quit_ = _read_status(status, calls, steps)
+        laststep.update(steps)
         for i, cl in calls.items():
             allcalls.setdefault(i, []).extend(cl)
         if loaded:
@@ -180,4 +191,5 @@ def run_probes(probes, native_dir, repo, workdir, per_probe_timeout=60.0, batch_
         if r is None:
             results[i] = {"ret": "notrun", "val": None, "reports": [], "signal": None}
         results[i]["calls"] = allcalls.get(i, [])
+        results[i]["step"] = laststep.get(i)
     return results
